@@ -160,9 +160,13 @@ def register_buffered(R):
             ] + cons,
         },
         modifies=["self._eof_reached", B, CA, V, s, w, K, B + ".data", "ghost.IN", "ghost.recv_calls", "ghost.EOF", "ghost.io_errors"],
-        env={"call_hints": {"recv_into": [
-            ("written-region-extends-the-pending-bytes", f"{B}[{sp}:{sp} + {w} + result] == pre({B}[{sp}:{sp} + {w}]) + ghost.IN[len(pre(ghost.IN)):]"),
-            ("all-pending-bytes-are-in-front-of-the-generator", f"{K}.T + {B}[{sp}:{sp} + {w} + result] == U0 + ghost.IN[len(old(ghost.IN)):]"),
-        ]}},
+        env={"call_hints": {
+            "get_write_buffer": [("pending-bytes-so-far", f"{K}.T + {B}[{sp}:{sp} + {w}] == U0 + ghost.IN[len(old(ghost.IN)):]")],
+            "recv_into": [
+                ("written-region-extends-the-pending-bytes", f"{B}[{sp}:{sp} + {w} + result] == pre({B}[{sp}:{sp} + {w}]) + ghost.IN[len(pre(ghost.IN)):]"),
+                ("received-so-far-splits-at-this-read", "ghost.IN[len(old(ghost.IN)):] == pre(ghost.IN)[len(old(ghost.IN)):] + ghost.IN[len(pre(ghost.IN)):]"),
+                ("generator-stream-unchanged-by-the-read", f"{K}.T == pre({K}.T)"),
+                ("all-pending-bytes-are-in-front-of-the-generator", f"{K}.T + {B}[{sp}:{sp} + {w} + result] == U0 + ghost.IN[len(old(ghost.IN)):]"),
+            ]}},
         tags="C03 C10",
     )
